@@ -263,6 +263,60 @@ def voc_sse2():
     return V, ARITY, PRED
 
 
+LANE0 = sympy.Function('lane0')
+P16 = sympy.Function('packed16')
+
+
+def _pack16(v):
+    """a pixel narrowed to 16 bits: it sits wholly in lane 0 of the register"""
+    try:
+        if v is not None and _is_expr(v) and getattr(v, 'free_symbols', None):
+            return P16(v)
+    except Exception:
+        pass
+    return v
+
+
+def _lane0_broadcast(ex, c, a):
+    """expand_alpha_rev: every lane receives lane 0 of the argument.  For a value that is its own alpha in every lane (an a8 mask byte) that
+    is the identity; for a colour pixel it is the blue channel, not the alpha - kept as an opaque term so that it cannot pass for alpha"""
+    v = ex.val(a[0])
+    try:
+        if v is not None and _is_expr(v) and getattr(v, 'func', None) == P16:
+            return v.args[0]                     # four copies of the packed pixel
+        if v is None or not _is_expr(v) or not getattr(v, 'free_symbols', None):
+            return v
+        if vanishes(sympy.expand(v - alpha(v)), getattr(ex, 'base', None) or {}):
+            return v
+    except Unknown:
+        return v
+    # a packed 16-bit pixel sits wholly in lane 0: broadcasting it replicates the pixel (four r5g6b5 pixels at once)
+    f = getattr(ex, 'f', None)
+    if f is not None:
+        seen = set(); work = [a[0]]
+        while work:
+            o = work.pop()
+            y = f.v(o) if o and o[0] == 'v' else None
+            if y is None or y.i in seen:
+                continue
+            seen.add(y.i)
+            if y.op in ('zext', 'sext', 'trunc', 'bitcast'):
+                src = f.v(y.a[0])
+                if (src is not None and src.ty == 'i16') or y.ty == 'i16':
+                    return v
+                work.append(y.a[0])
+            elif y.op == 'call' and y.callee:
+                if '0565' in y.callee or '565' in y.callee and 'pack' in y.callee:
+                    return v
+                if y.callee in ('to_m64', 'to_uint64'):
+                    work.extend(q for q in y.a if q and q[0] == 'v')
+            elif y.op in ('phi', 'select'):
+                work.extend(q for q in (y.a if y.op == 'phi' else y.a[1:]) if q and q[0] == 'v')
+            elif y.op == 'load' and y.ty == 'i16':
+                return v
+    return LANE0(v)
+
+
 def voc_mmx():
     V = {}
     V['load8888'] = lambda ex, c, a: ex.load_ptr(ex.val(a[0]))
@@ -287,8 +341,8 @@ def voc_mmx():
         V[n] = lambda ex, c, a: ex.val(a[0])
     V['expandx888'] = lambda ex, c, a: ex.opaque(ex.val(a[0]))
     V['load8888u'] = lambda ex, c, a: ex.load_ptr(ex.val(a[0]))
-    V['expand_alpha_rev'] = lambda ex, c, a: ex.val(a[0])       # broadcast of the low lane: an a8 mask byte, or a packed 565 pixel
-    V['pack_565'] = lambda ex, c, a: ex.val(a[0])
+    V['expand_alpha_rev'] = _lane0_broadcast                    # broadcast of the low lane: an a8 mask byte, or a packed 565 pixel
+    V['pack_565'] = lambda ex, c, a: _pack16(ex.val(a[0]))
     V['expand_4x565'] = _spread(4)
     V['expand_4xpacked565'] = _spread(2)
     V['pack_4x565'] = lambda ex, c, a: _all_equal([ex.val(o) for o in a[:4]])
@@ -1108,7 +1162,17 @@ def _expand_cases(v):
                 d = dict(a); d.update(a2)
                 out.append((d, v2, list(n) + list(n2)))
         return out
-    return [({}, v, [])]
+    return [({}, _unpack16(v), [])]
+
+
+def _unpack16(v):
+    """drop the 'packed into 16 bits' marker: what is stored / compared is the pixel"""
+    try:
+        if v is not None and _is_expr(v) and v.has(P16):
+            return sympy.expand(v.replace(P16, lambda x: x))
+    except Exception:
+        pass
+    return v
 
 
 _LOOPS = {}
